@@ -759,6 +759,103 @@ fn gen_c19(rng: &mut Rng, thorough: bool, out: &mut Cases) {
     }
 }
 
+fn gen_c10(rng: &mut Rng, thorough: bool, out: &mut Cases) {
+    let n = if thorough { 40_000 } else { 2_500 };
+    for i in 0..n {
+        let sh = rng.bool();
+        let nparts = match rng.below(6) {
+            0 => 0,
+            1 => 1,
+            _ => rng.range(2, 5),
+        } as usize;
+        // a small id vocabulary so that ids repeat across messages and parts
+        let ids = ["A", "B", "APP", "CTX1", "", "é", "NONE"];
+        let mut w = W::new();
+        w.n((i % 4) as u128);
+        w.n(nparts as u128);
+        for _ in 0..nparts {
+            let k = rng.below(5) as usize;
+            w.n(k as u128);
+            for j in 0..k {
+                let mut o = msg_opts_for(rng, i + j);
+                o.storage = Some(sh);
+                o.target_total = None;
+                o.max_blob = 12;
+                o.max_args = 3;
+                let mut m = gen_message(rng, &o);
+                if rng.chance(3, 4) {
+                    if let Some(x) = &mut m.extended_header {
+                        x.application_id = rng.pick(&ids).to_string();
+                        x.context_id = rng.pick(&ids).to_string();
+                        if rng.bool() && !matches!(x.message_type, MessageType::NetworkTrace(_) | MessageType::Control(_)) {
+                            x.message_type = MessageType::Log(gen_log_level(rng));
+                        }
+                    }
+                    if m.header.ecu_id.is_some() {
+                        m.header.ecu_id = Some(rng.pick(&ids).to_string());
+                    }
+                }
+                w.msg(&m);
+            }
+        }
+        out.push(32, w);
+    }
+}
+
+fn gen_c14(rng: &mut Rng, thorough: bool, out: &mut Cases) {
+    // all 256 MSIN bytes
+    for b in 0..=255u128 {
+        let mut w = W::new();
+        w.n(b);
+        out.push(7, w);
+    }
+    // all 256 HTYP bytes, observed through dlt_message on a complete non-verbose message
+    for b in 0..=255u8 {
+        for variant in 0..2 {
+            let mut v = vec![b, 0x11 + variant, 0, 0];
+            for bit in [2u8, 3, 4] {
+                if b & (1 << bit) != 0 {
+                    v.extend_from_slice(&[0x41 + bit, 0x42, 0x43, 0x44]);
+                }
+            }
+            if b & 1 != 0 {
+                v.extend_from_slice(&[0x40, 0x00, 0x41, 0x50, 0x50, 0x00, 0x43, 0x54, 0x58, 0x00]);
+            }
+            v.extend_from_slice(&[1, 2, 3, 4, 5, 6, 7, 8]);
+            let l = v.len() as u16;
+            v[2] = (l >> 8) as u8;
+            v[3] = l as u8;
+            let mut w = W::new();
+            w.bool(false);
+            w.n(0);
+            w.b(&v);
+            out.push(8, w);
+        }
+    }
+    // type-info words through the ordinary pipeline: boundary words and a seeded sample
+    // (the exhaustive comparison is the ti-sweep)
+    let mut words: Vec<u32> = vec![0, 0xffff_ffff, 0x3ffff, 0x40000, 0x8000_0000];
+    for b in 0..32 {
+        words.push(1 << b);
+        words.push(!(1u32 << b));
+    }
+    let n = if thorough { 200_000 } else { 30_000 };
+    for _ in 0..n {
+        let kind = *rng.pick(&[0x10u32, 0x20, 0x40, 0x80, 0x200, 0x400, 0x100, 0x30, 0]);
+        let w = match rng.below(3) {
+            0 => rng.next() as u32,
+            1 => kind | rng.below(16) as u32 | ((rng.below(128) as u32) << 11),
+            _ => kind | rng.below(16) as u32 | ((rng.next() as u32) & 0xffff_f800),
+        };
+        words.push(w);
+    }
+    for wd in words {
+        let mut w = W::new();
+        w.n(wd as u128);
+        out.push(4, w);
+    }
+}
+
 pub fn generate(prop: &str, seed: u64, thorough: bool) -> Cases {
     let mut rng = Rng::new(seed);
     let mut out = Cases::new();
@@ -769,7 +866,9 @@ pub fn generate(prop: &str, seed: u64, thorough: bool) -> Cases {
         "C05" => gen_c05(&mut rng, thorough, &mut out),
         "C06" => gen_c06(&mut rng, thorough, &mut out),
         "C09" => gen_c09(&mut rng, thorough, &mut out),
+        "C10" => gen_c10(&mut rng, thorough, &mut out),
         "C13" => gen_c13(&mut rng, thorough, &mut out),
+        "C14" => gen_c14(&mut rng, thorough, &mut out),
         "C15" => gen_c15(&mut rng, thorough, &mut out),
         "C16" => gen_c16(&mut rng, thorough, &mut out),
         "C17" => gen_c17(&mut rng, thorough, &mut out),
